@@ -45,7 +45,12 @@ RULE = ("model tie: (1) Metadata(metafile)._map_pieces() -> per piece the (full,
         "single-file form), with a SUB-DIRECTORY named like the torrent, and with the name once more one level down; RESUME sequences (v1, v2, hybrid; Assembler "
         "API, CLI in process, and `python -m torrentfile rebuild` in separate processes): rebuild into the empty destination (judged), "
         "then 1-2 rebuilt files are cut to 0 / 1 / half / length-1 bytes as an interrupted copy leaves them, then the same rebuild again, and "
-        "the destination is judged again by the same reference (failure kinds prefixed `resume:`).  Payloads at SCALE (end to end only, "
+        "the destination is judged again by the same reference (failure kinds prefixed `resume:`).  TEXT versus BYTES: plain v1 "
+        "metafiles (creator and reference encoder, listed order sorted or shuffled) of 1-4 pieces whose payload is tuned -- the last 8 "
+        "bytes of every piece -- so that the recorded `pieces` string is valid UTF-8 WITH multi-byte characters (pyben hands such a "
+        "string over as text, which is shorter than the bytes): single files of one / two / three pieces, a file ending on a piece "
+        "boundary, pieces straddling files, one piece holding every file; intact copies and decoys as everywhere, API / CLI / separate "
+        "process; everything must be restored.  A decomposed (NFD) file name is in the name pool of the structured layouts.  Payloads at SCALE (end to end only, "
         "same scatterings, decoys, routes and reference judgement): piece lengths 256 KiB / 512 KiB / 1 / 2 / 4 MiB, one shape each at 8 and 16 MiB (thorough: more "
         "through harness/scale.py) and candidates of 1 .. 9 MiB aimed at code that reads, maps or copies through 1 / 4 / 8 MiB windows: a "
         "candidate just above 1 MiB whose tail shares a piece with whole small files, candidates of exactly k MiB and one byte either "
@@ -191,8 +196,8 @@ def e2e(ctx):
     plan = [("c13", None)] * (64 if quick else 1100) + [("d27", None)] * (8 if quick else 80) + [("d28", None)] * (6 if quick else 60) + \
         [("samename", None)] * (4 if quick else 40) + [("resume", None)] * (14 if quick else 200) + \
         [("dotted", None)] * (8 if quick else 80) + [("boundary", None)] * (6 if quick else 80) + \
-        [("namesake", None)] * (10 if quick else 120)
-    plan = [(p, "cli-proc" if (p == "c13" and i % (21 if quick else 40) == 5) or (p == "resume" and i % (5 if quick else 10) == 2) else None)
+        [("namesake", None)] * (10 if quick else 120) + [("utf8pieces", None)] * (6 if quick else 48)
+    plan = [(p, "cli-proc" if (p == "utf8pieces" and i % 6 == 1) or (p == "c13" and i % (21 if quick else 40) == 5) or (p == "resume" and i % (5 if quick else 10) == 2) else None)
             for i, (p, _) in enumerate(plan)]
     # payloads at SCALE (rebuild_common.scale_plan): every aimed shape through a v1 and through a v2 / hybrid metafile, random
     # shapes; the same generator of scatterings and decoys, the same reference judgement; now and then the unpatched command line
